@@ -90,6 +90,7 @@ def gen(seed: int, tier: str) -> dict[str, Any]:
         table[str(a)] = rng.choice(HOT) if rng.random() < 0.5 else rng.choice(DPTS)
     tgs = []
     repeat = rng.choice([0.0, 0.3, 0.6])       # cyclic senders repeat the same payload on the same address
+    burst = rng.random() < 0.4
     for i in range(rng.choice([3, 8, 20])):
         kind, ln = rng.choice(PAYLOADS)
         data = [rng.randrange(256) for _ in range(ln)] if kind == "arr" else ln
@@ -100,6 +101,16 @@ def gen(seed: int, tier: str) -> dict[str, Any]:
         if tgs and rng.random() < repeat:
             prev = rng.choice(tgs[-3:])
             tg.update(addr=prev["addr"], kind=prev["kind"], data=prev["data"])
+        if tgs and burst and rng.random() < 0.5:
+            # the next telegram - often to the same address, with another value - arrives while this one is still on its
+            # way (an outgoing telegram waits for its transmission and confirmation for some milliseconds)
+            tgs[-1]["gap"] = rng.choice([0.0, 0.001, 0.004])
+            if rng.random() < 0.6:
+                tg.update(addr=tgs[-1]["addr"], kind=tgs[-1]["kind"])
+                if tg["kind"] == "arr":
+                    tg["data"] = [rng.randrange(256) for _ in range(len(tgs[-1]["data"]))]
+                else:
+                    tg["data"] = 1 - tgs[-1]["data"] if tgs[-1]["data"] in (0, 1) else tgs[-1]["data"]
         tgs.append(tg)
     # the table is reconfigured while running (project re-import): other types for some of the addresses
     table2, retable_at = {}, None
@@ -160,6 +171,9 @@ def _one(plan, with_table: bool):
         await xknx.start()
         for oi, op in enumerate(plan["ops"]):
             if plan.get("retable_at") == oi:
+                # (nothing is on its way when the table changes: a telegram keeps what was decoded when it was queued)
+                await xknx.telegrams.join()
+                await asyncio.sleep(0.01)
                 version[0] = 2
                 if with_table:
                     xknx.group_address_dpt.set({GroupAddress(a): d for a, d in table2.items()})
@@ -168,8 +182,10 @@ def _one(plan, with_table: bool):
             xknx.telegrams.put_nowait(Telegram(
                 destination_address=GroupAddress(op["addr"]), payload=payload,
                 direction=TelegramDirection.OUTGOING if op["dir"] == "out" else TelegramDirection.INCOMING))
-            await asyncio.sleep(0.05)
+            await asyncio.sleep(op.get("gap", 0.05))
             trace.append(snapshot())
+        await asyncio.sleep(0.1)
+        trace.append(snapshot())
         await xknx.stop()
 
     R.execute(main())
